@@ -56,7 +56,7 @@ import (
 // ---------------------------------------------------------------- case format
 
 type Step struct {
-	T   string `json:"t"` // begin | acc | block | grant | timeout | end | obs
+	T   string `json:"t"` // begin | acc | block | grant | timeout | end | die | obs | obsa
 	A   int    `json:"a"`
 	K   string `json:"k"`
 	C   int    `json:"c"`
@@ -74,6 +74,8 @@ type Stress struct {
 	HoldUs   int   `json:"hold_us"`   // maximal pause
 	Seed     int64 `json:"seed"`
 	Bank     bool  `json:"bank"`
+	DiePct   int   `json:"die_pct"` // a section that has written ends in a fatal error (the archetype is gone)
+	MaxDie   int   `json:"max_die"` // at most this many sharers of the case die (default 1)
 }
 
 type Case struct {
@@ -88,6 +90,7 @@ type Case struct {
 	Steps     []Step   `json:"steps"`
 	Stress    *Stress  `json:"stress"`
 	Probes    int      `json:"probes"` // K
+	Bank      bool     `json:"bank"`   // gated: every section keeps the sum of the cells (SumPreserved is judged)
 }
 
 type rec map[string]interface{}
@@ -194,7 +197,7 @@ func toMap(self tla.Value, res distsys.ArchetypeResource) distsys.ArchetypeResou
 // ---------------------------------------------------------------- sharers
 
 type command struct {
-	t string // op | commit | abort
+	t string // op | commit | abort | die
 	k string
 	c int
 	v int
@@ -243,6 +246,14 @@ type sharer struct {
 	nwrites  int
 	rng      *rand.Rand
 	probeRes string // outcome detail of the last probe attempt
+	probeCells []int // cells the probe section reads
+
+	// a sharer that died: its body returned a fatal error inside a section (on purpose), Run
+	// returned it without Commit/Abort and closed the resources. Written by the archetype's
+	// goroutine before it returns the error, read by the driver after `exited` fired.
+	died     bool
+	deadHeld []int   // managers the dying section had accessed
+	deadW    []opRec // what it had written
 	free     bool   // stress: the gate lets the sharer through until its quota is reached
 
 	// driver's view
@@ -327,7 +338,7 @@ func (s *sharer) body(iface distsys.ArchetypeInterface) error {
 		return iface.Goto("A.Done")
 	case "probe":
 		s.probeRes = ""
-		for c := 1; c <= len(s.cr.c.LockOf); c++ {
+		for _, c := range s.probeCells {
 			v, err := s.access(iface, "r", c, 0)
 			if err != nil {
 				if errors.Is(err, distsys.ErrCriticalSectionAborted) {
@@ -363,8 +374,54 @@ func (s *sharer) body(iface distsys.ArchetypeInterface) error {
 			return iface.Goto("A.sec")
 		case "abort":
 			return distsys.ErrCriticalSectionAborted
+		case "die":
+			return s.die()
 		}
 	}
+}
+
+// die ends the section the way a failed MPCal assertion does: the body returns an error that is
+// not ErrCriticalSectionAborted; MPCalContext.Run returns it (no Commit, no Abort) and closes
+// the archetype's resources.
+func (s *sharer) die() error {
+	s.died = true
+	seen := map[int]bool{}
+	for _, o := range s.ops {
+		m := s.cr.mgrOf(o.C)
+		if !seen[m] {
+			seen[m] = true
+			s.deadHeld = append(s.deadHeld, m)
+		}
+		if o.K == "w" {
+			s.deadW = append(s.deadW, o)
+		}
+	}
+	return fmt.Errorf("c07drv: sharer %d dies inside its section: %w", s.id, distsys.ErrAssertionFailed)
+}
+
+func (s *sharer) wrote() bool {
+	for _, o := range s.ops {
+		if o.K == "w" {
+			return true
+		}
+	}
+	return false
+}
+
+// mayDie: stress mode, decided after a write; at most MaxDie sharers of a case die.
+func (s *sharer) mayDie() bool {
+	st := s.cr.c.Stress
+	if st.DiePct <= 0 || !s.wrote() || s.rng.Intn(100) >= st.DiePct {
+		return false
+	}
+	max := st.MaxDie
+	if max <= 0 {
+		max = 1
+	}
+	if int(s.cr.deaths.Add(1)) > max {
+		return false
+	}
+	return true
 }
 
 func (s *sharer) stressBody(iface distsys.ArchetypeInterface) error {
@@ -408,6 +465,9 @@ func (s *sharer) stressBody(iface distsys.ArchetypeInterface) error {
 				return err
 			}
 			pause()
+			if s.rng.Intn(2) == 0 && s.mayDie() { // the amount has left c1 and not reached c2
+				return s.die()
+			}
 			if _, err = do("w", c2, v2+d); err != nil {
 				return err
 			}
@@ -429,6 +489,10 @@ func (s *sharer) stressBody(iface distsys.ArchetypeInterface) error {
 			pause()
 		}
 	}
+	if s.mayDie() {
+		pause()
+		return s.die()
+	}
 	if s.rng.Intn(100) < st.AbortPct {
 		return distsys.ErrCriticalSectionAborted
 	}
@@ -448,7 +512,9 @@ type caseRun struct {
 
 	asyncObs sync.WaitGroup
 	nAsync   atomic.Int32 // GetState() calls in flight (they hold a lock for an instant: no lc sampling then)
-	asyncOn  []bool       // per manager: an observation is already queued
+	asyncOn  []*asyncSlot // per manager: the observation that is queued (guarded by mu)
+	deaths   atomic.Int32 // stress: sharers that decided to die
+	deadw    []opRec      // writes of the sections that ended in a fatal error
 
 	mu    sync.Mutex
 	items []rec // P-level items of the case
@@ -459,7 +525,17 @@ type caseRun struct {
 	built bool
 }
 
+// asyncSlot: a GetState() queued behind a section. orphan: the section's sharer died, the call
+// is not waited for any more (on the pinned tree it never returns).
+type asyncSlot struct{ orphan bool }
+
 func (cr *caseRun) stamp() int64 { return cr.clk.Add(1) }
+
+// deadHeld: manager m (1-based) was last obtained by a sharer that then died inside its section.
+func (cr *caseRun) deadHeld(m int) bool {
+	h := cr.holder[m-1]
+	return h > 0 && cr.sh[h-1].died
+}
 
 func (cr *caseRun) addTxn(a int, s, t int64, ops []opRec) {
 	o := make([]opRec, len(ops))
@@ -518,7 +594,7 @@ func (cr *caseRun) build() {
 		}
 	}
 	cr.holder = make([]int, nm)
-	cr.asyncOn = make([]bool, nm)
+	cr.asyncOn = make([]*asyncSlot, nm)
 	for m := 1; m <= nm; m++ {
 		mg := &manager{id: m, kind: c.Kinds[m-1]}
 		for ci, mm := range c.LockOf {
@@ -901,27 +977,142 @@ func (cr *caseRun) observe(m *manager) bool {
 // call must wait for the section to end (and then show committed values only). It completes on
 // its own; the item carries the stamps of call and return. P-level only.
 func (cr *caseRun) observeAsync(m *manager) {
+	sl := &asyncSlot{}
 	cr.mu.Lock()
-	busy := cr.asyncOn[m.id-1]
-	cr.asyncOn[m.id-1] = true
+	busy := cr.asyncOn[m.id-1] != nil
+	if !busy {
+		cr.asyncOn[m.id-1] = sl
+	}
 	cr.mu.Unlock()
 	if busy {
 		return
 	}
 	cr.asyncObs.Add(1)
 	cr.nAsync.Add(1)
+	h := m.mgr.MakeLocalShared()
 	s0 := cr.stamp()
 	go func() {
-		defer cr.asyncObs.Done()
-		b, err := m.watch2.GetState()
+		b, err := h.GetState()
 		s1 := cr.stamp()
-		cr.nAsync.Add(-1)
-		ops := decodeObs(m, b, err)
-		cr.addTxn(0, s0, s1, ops)
 		cr.mu.Lock()
-		cr.asyncOn[m.id-1] = false
+		orphan := sl.orphan
+		if !orphan {
+			cr.asyncOn[m.id-1] = nil
+		}
 		cr.mu.Unlock()
+		if !orphan {
+			cr.nAsync.Add(-1)
+		}
+		// whenever it returns it is an observation (after the holder died it returns only if the
+		// lock was given up: it must then show committed values)
+		cr.addTxn(0, s0, s1, decodeObs(m, b, err))
+		if !orphan {
+			cr.asyncObs.Done()
+		}
 	}()
+}
+
+// orphanAsync: the sharer holding manager m died; a GetState() queued behind its section is
+// not waited for any more.
+func (cr *caseRun) orphanAsync(m int) {
+	cr.mu.Lock()
+	sl := cr.asyncOn[m-1]
+	if sl != nil {
+		sl.orphan = true
+		cr.asyncOn[m-1] = nil
+	}
+	cr.mu.Unlock()
+	if sl != nil {
+		cr.nAsync.Add(-1)
+		cr.asyncObs.Done()
+	}
+}
+
+// observeDead calls GetState() of a manager whose variable a dead sharer took with it. On the
+// pinned tree the call never returns (documented; not C07's business): it is left behind after
+// a short wait and nothing is recorded. If it does return, what it shows is an observation like
+// any other. The wait decides nothing.
+func (cr *caseRun) observeDead(m *manager) {
+	h := m.mgr.MakeLocalShared()
+	ch := make(chan struct{})
+	s0 := cr.stamp()
+	go func() {
+		b, err := h.GetState()
+		s1 := cr.stamp()
+		cr.addTxn(0, s0, s1, decodeObs(m, b, err))
+		close(ch)
+	}()
+	d := 4 * cr.timeout
+	if d < 100*time.Millisecond {
+		d = 100 * time.Millisecond
+	}
+	if d > 400*time.Millisecond {
+		d = 400 * time.Millisecond
+	}
+	select {
+	case <-ch:
+	case <-time.After(d):
+	}
+}
+
+// noteDeath updates the driver's view after sharer s died on purpose: the variables its section
+// had obtained stay with it (mirror: holder keeps s.id), its writes are listed in the header.
+func (cr *caseRun) noteDeath(s *sharer) {
+	s.state = "dead"
+	for _, m := range s.deadHeld {
+		cr.holder[m-1] = s.id
+		cr.orphanAsync(m)
+	}
+	if !(cr.c.Stress != nil && cr.c.Stress.Bank) {
+		cr.mu.Lock()
+		cr.deadw = append(cr.deadw, s.deadW...)
+		cr.mu.Unlock()
+	}
+}
+
+// doDie: the open section of s ends in a fatal error; Run must return it.
+func (cr *caseRun) doDie(s *sharer) {
+	what := "end of section (die: the body returns a failed assertion)"
+	s.cmd <- command{t: "die"}
+	var p interface{}
+	have := false
+	try := func() bool {
+		if !have {
+			select {
+			case p = <-s.exited:
+				have = true
+			default:
+			}
+		}
+		return have
+	}
+	select {
+	case p = <-s.exited:
+		have = true
+	case <-time.After(cr.wd):
+		if cr.confirm(try) {
+			cr.reportHang(s, what)
+			return
+		}
+		if !have {
+			cr.event(rec{"e": "watchdog", "a": s.id, "what": what})
+			cr.hung = true
+			return
+		}
+	}
+	msg := fmt.Sprint(p)
+	if p == nil || !s.died || len(msg) < 13 || msg[:13] != "Run returned:" {
+		s.state = "dead"
+		s.died = false
+		if p == nil { // Run swallowed the error and ended normally: not what the model says, not C07's business
+			cr.driftEv("Run returned nil although the body returned a failed assertion", Step{T: "die", A: s.id})
+		} else {
+			cr.event(rec{"e": "panic", "a": s.id, "what": what, "msg": msg})
+		}
+		return
+	}
+	cr.noteDeath(s)
+	cr.temit(rec{"e": "die", "a": s.id, "lc": cr.lc()})
 }
 
 func decodeObs(m *manager, b []byte, err error) []opRec {
@@ -1027,6 +1218,16 @@ func (cr *caseRun) gated() {
 				continue
 			}
 			cr.doEnd(s, st.How)
+		case "die":
+			if s.state == "wait" {
+				cr.driftEv("die while an access is pending: waiting for it", st)
+				cr.await(s)
+			}
+			if s.state != "open" {
+				cr.driftEv("die skipped: no open section", st)
+				continue
+			}
+			cr.doDie(s)
 		case "obs":
 			if cr.holder[st.M-1] != 0 {
 				continue
@@ -1036,7 +1237,7 @@ func (cr *caseRun) gated() {
 			}
 			cr.observe(cr.mgrs[st.M-1])
 		case "obsa":
-			if cr.holder[st.M-1] == 0 {
+			if cr.holder[st.M-1] == 0 || cr.deadHeld(st.M) {
 				continue
 			}
 			cr.observeAsync(cr.mgrs[st.M-1])
@@ -1062,25 +1263,37 @@ func (cr *caseRun) gated() {
 }
 
 func (cr *caseRun) stress() {
-	// an observer calls GetState() of the managers in turn while the sharers run
+	// observers (one per manager) call GetState() while the sharers run
 	var stop atomic.Bool
-	obsDone := make(chan struct{})
-	go func() {
-		defer close(obsDone)
-		for i := 0; !stop.Load(); i++ {
-			m := cr.mgrs[i%len(cr.mgrs)]
-			s0 := cr.stamp()
-			b, err := m.watch2.GetState()
-			s1 := cr.stamp()
-			cr.addTxn(0, s0, s1, decodeObs(m, b, err))
-			time.Sleep(300 * time.Microsecond)
-		}
-	}()
+	obsDone := make([]chan struct{}, len(cr.mgrs))
+	for i, m := range cr.mgrs {
+		m := m
+		done := make(chan struct{})
+		obsDone[i] = done
+		go func() {
+			defer close(done)
+			for !stop.Load() {
+				s0 := cr.stamp()
+				b, err := m.watch2.GetState()
+				s1 := cr.stamp()
+				cr.addTxn(0, s0, s1, decodeObs(m, b, err))
+				time.Sleep(time.Duration(300*len(cr.mgrs)) * time.Microsecond)
+			}
+		}()
+	}
 	defer func() {
 		stop.Store(true)
-		if !cr.hung {
+		for i, m := range cr.mgrs {
+			if cr.hung {
+				break
+			}
+			if cr.deadHeld(m.id) {
+				// the observer of a variable a dead sharer took with it sits in GetState() for ever
+				// (pinned tree): it is left behind; whatever it saw before is on record
+				continue
+			}
 			select {
-			case <-obsDone:
+			case <-obsDone[i]:
 			case <-time.After(cr.wd):
 				cr.event(rec{"e": "watchdog", "what": "stress observer did not stop"})
 				cr.hung = true
@@ -1093,7 +1306,12 @@ func (cr *caseRun) stress() {
 		select {
 		case <-s.arrive:
 		case p := <-s.exited:
+			if msg := fmt.Sprint(p); s.died && p != nil && len(msg) >= 13 && msg[:13] == "Run returned:" {
+				cr.noteDeath(s)
+				continue
+			}
 			s.state = "dead"
+			s.died = false
 			cr.event(rec{"e": "panic", "a": s.id, "what": "stress", "msg": fmt.Sprint(p)})
 		case <-deadline:
 			// standstill (no stamp taken anywhere in the case for five rounds) = deadlock; otherwise only slow
@@ -1139,23 +1357,29 @@ func (cr *caseRun) epilogue() {
 			}
 		}
 	}
+	// variables a dead sharer took with it are probed apart: no progress is demanded there (the
+	// attempt has to RETURN, which the watchdog of waitArrive sees to); what a probe that does
+	// get through reads is judged like any committed section
+	var liveCells, deadCells []int
+	for c := 1; c <= len(cr.c.LockOf); c++ {
+		if cr.deadHeld(cr.mgrOf(c)) {
+			deadCells = append(deadCells, c)
+		} else {
+			liveCells = append(liveCells, c)
+		}
+	}
 	soloFailed := false
-	for _, s := range cr.sh {
-		if cr.hung {
-			return
-		}
-		if s.state != "idle" {
-			continue
-		}
+	probe := func(s *sharer, cells []int, k int, dh int) bool {
 		outs := []string{}
 		s0 := cr.stamp()
 		for i := 0; i < k; i++ {
 			s.mode = "probe"
+			s.probeCells = cells
 			s.start = cr.stamp()
 			s.goCh <- struct{}{}
 			ar, ok := cr.waitArrive(s, "probe section")
 			if !ok {
-				return
+				return false
 			}
 			if ar.out == "commit" {
 				outs = append(outs, "commit")
@@ -1171,13 +1395,39 @@ func (cr *caseRun) epilogue() {
 				s.probeRes = "abort"
 			}
 			outs = append(outs, s.probeRes)
-			cr.temit(rec{"e": "probe-failed", "a": s.id, "res": s.probeRes})
+			if dh == 1 && s.probeRes == "timeout" && len(s.ops) == 0 {
+				// the model's view of it: the first read waited for the dead holder and was refused
+				cr.temit(rec{"e": "begin", "a": s.id})
+				cr.temit(rec{"e": "block", "a": s.id, "k": "r", "c": cells[0], "v": 0})
+				cr.temit(rec{"e": "timeout", "a": s.id, "lc": cr.lc()})
+			} else {
+				cr.temit(rec{"e": "probe-failed", "a": s.id, "res": s.probeRes})
+			}
 		}
 		cr.mu.Lock()
-		cr.items = append(cr.items, rec{"e": "solo", "a": s.id, "s": s0, "t": cr.stamp(), "outs": outs, "ops": []opRec{}})
+		cr.items = append(cr.items, rec{"e": "solo", "a": s.id, "s": s0, "t": cr.stamp(), "outs": outs, "dh": dh, "ops": []opRec{}})
 		cr.mu.Unlock()
-		if outs[len(outs)-1] != "commit" {
+		if dh == 0 && outs[len(outs)-1] != "commit" {
 			soloFailed = true
+		}
+		return true
+	}
+	for _, s := range cr.sh {
+		if cr.hung {
+			return
+		}
+		if s.state != "idle" {
+			continue
+		}
+		if len(liveCells) > 0 || len(deadCells) == 0 {
+			if !probe(s, liveCells, k, 0) {
+				return
+			}
+		}
+		if len(deadCells) > 0 && !cr.hung {
+			if !probe(s, deadCells, 1, 1) {
+				return
+			}
 		}
 	}
 	// let every archetype run to Done
@@ -1202,6 +1452,10 @@ func (cr *caseRun) epilogue() {
 		return // a blocking GetState() could only hang now; the refusal is already on record
 	}
 	for _, m := range cr.mgrs {
+		if cr.deadHeld(m.id) {
+			cr.observeDead(m)
+			continue
+		}
 		if !cr.observe(m) {
 			return
 		}
@@ -1263,12 +1517,22 @@ func (cr *caseRun) header() rec {
 		sum += v
 	}
 	bank := 0
-	if c.Stress != nil && c.Stress.Bank {
+	if c.Bank || (c.Stress != nil && c.Stress.Bank) {
 		bank = 1
+	}
+	dead := []int{}
+	for _, s := range cr.sh {
+		if s.died {
+			dead = append(dead, s.id)
+		}
+	}
+	deadw := []rec{}
+	for _, o := range cr.deadw {
+		deadw = append(deadw, rec{"c": o.C, "v": o.V})
 	}
 	return rec{"e": "case", "id": c.ID, "mode": c.Mode, "fam": c.Fam, "na": c.NA, "n": len(cr.items), "init": c.Init,
 		"bank": bank, "sum": sum, "lockof": c.LockOf, "kinds": c.Kinds, "timeout_ms": c.TimeoutMs,
-		"complete": !cr.hung, "drift": cr.drift}
+		"complete": !cr.hung, "drift": cr.drift, "dead": dead, "deadw": deadw}
 }
 
 func main() {
